@@ -122,10 +122,18 @@ fn dippr_coefs(r: &DipprRecord) -> (&'static str, Vec<f64>) {
 /// residual properties along rho_k = rho_0 * 10^-k
 pub fn run_low_density(tr: &mut Tr, args: &Args, rng: &mut Rng) {
     for m in zoo::zoo(args.thorough) {
-        let reps = if args.thorough { 6 } else { 1 };
+        let reps = if args.thorough { 6 } else { 2 };
         for r in 0..reps {
-            let x = crate::thermo::sample_x(&m, rng, 1);
+            let mut x = crate::thermo::sample_x(&m, rng, 1);
             let n = m.n;
+            // every other series: one component in trace amount (ideal mixing must hold for all compositions down to 1e-12 of the maximum density)
+            if n > 1 && r % 2 == 0 {
+                let tot: f64 = x[2..].iter().sum();
+                let k = 2 + rng.below(n);
+                x[k] = tot * [1e-3, 1e-6, 1e-9][rng.below(3)];
+            }
+            let t0 = x[1];
+            let eos_ig = if m.family == "ElectrolytePcSaft" { None } else { Some(zoo::with_ideal_gas(&m.eos, n)) };
             let ntot: f64 = x[2..].iter().sum();
             let rmax = m.eos.compute_max_density(&Array1::from_vec(x[2..].to_vec()));
             let rho0 = 0.3 * rmax;
@@ -136,7 +144,21 @@ pub fn run_low_density(tr: &mut Tr, args: &Args, rng: &mut Rng) {
                     &Moles::from_reduced(Array1::from_vec(x[2..].to_vec())));
                 let Ok(st) = st else { continue };
                 let t = x[1];
-                series.push(json!({"rho": fs(rho), "rho_rel": fs(rho / rmax),
+                // ideal mixing along the ladder: ideal-gas chemical potentials of the mixture and of each pure component at the same T and total density
+                let (mut ig_mu, mut ig_pure): (Vec<f64>, Vec<f64>) = (vec![], vec![]);
+                if let Some(eos_ig) = eos_ig.as_ref() {
+                    use feos_core::Components;
+                    if let Ok(sti) = State::new_nvt(eos_ig, Temperature::from_reduced(t0), Volume::from_reduced(ntot / rho), &Moles::from_reduced(Array1::from_vec(x[2..].to_vec()))) {
+                        ig_mu = r1(sti.chemical_potential(Contributions::IdealGas)).to_vec();
+                        for i in 0..n {
+                            let sub = Arc::new(eos_ig.subset(&[i]));
+                            let v = State::new_nvt(&sub, Temperature::from_reduced(t0), Volume::from_reduced(ntot / rho), &Moles::from_reduced(Array1::from_vec(vec![ntot])))
+                                .map(|s| r1(s.chemical_potential(Contributions::IdealGas))[0]).unwrap_or(f64::NAN);
+                            ig_pure.push(v);
+                        }
+                    }
+                }
+                series.push(json!({"rho": fs(rho), "rho_rel": fs(rho / rmax), "ig_mu": fv(ig_mu.iter()), "ig_mu_pure": fv(ig_pure.iter()),
                     "a": fs(r0(st.residual_helmholtz_energy()) / (ntot * t)),
                     "zm1": fs(st.compressibility(Contributions::Residual)),
                     "Z": fs(st.compressibility(Contributions::Total)),
@@ -144,7 +166,7 @@ pub fn run_low_density(tr: &mut Tr, args: &Args, rng: &mut Rng) {
                     "mu": fv(r1(st.residual_chemical_potential()).iter().map(|v| v / t).collect::<Vec<_>>().iter()),
                     "ln_phi": fv(st.ln_phi().iter())}));
             }
-            tr.ev(json!({"ev":"LowDensity","case":format!("{}#{}",m.name,r),"family":m.family,"n":n,"T":fs(x[1]),"series":series}));
+            tr.ev(json!({"ev":"LowDensity","case":format!("{}#{}",m.name,r),"family":m.family,"n":n,"T":fs(x[1]),"N":fv(x[2..].iter()),"series":series}));
         }
     }
 }
